@@ -1,4 +1,5 @@
-import Gtree.Lemmas.HeapGrower
+import Gtree.Generated.Heap.Walk
+import Gtree.Lemmas.HeapRepr
 /-
   The walker of the source (simple_tree_walker.go: `walk`, `walkNode`), translated over the heap by /verif/translate
   (heap mode) with the user's callback as a state machine: on every heap that holds a forest, the callback is called
